@@ -257,6 +257,161 @@ theorem large_cut_pts (L : Lex) (fpp : Nat) (ctok : Tok) (pls : List (List Tok))
   rw [large_cut_pts_verdict L fpp ctok pls hc hclean hx j t sp hv]
   simp [ptsCutOk, hv]
 
+/-! ## byte lengths: the sizes the harness reports are the lengths of the texts the theorems are about -/
+
+theorem joinSp_length_fixed (tw : Nat) (ts : List Tok) (h : ∀ x ∈ ts, x.length = tw) (hne : ts ≠ []) :
+    (joinSp ts).length + 1 = ts.length * (tw + 1) := by
+  induction ts with
+  | nil => exact absurd rfl hne
+  | cons a ts ih =>
+    cases ts with
+    | nil => simp [joinSp, h a (by simp)]
+    | cons b ts =>
+      have ih' := ih (fun x hx => h x (List.mem_cons_of_mem _ hx)) (by simp)
+      simp only [joinSp, List.length_append, List.length_cons] at ih' ⊢
+      rw [h a (by simp)]
+      rw [Nat.add_mul, ← ih']
+      omega
+
+theorem renderLines_length_fixed (tw fpp : Nat) (hf : 0 < fpp) (ls : List (List Tok))
+    (h : ∀ ts ∈ ls, ts.length = fpp ∧ ∀ x ∈ ts, x.length = tw) :
+    (renderLines ls).length = ls.length * (fpp * (tw + 1)) := by
+  induction ls with
+  | nil => simp [renderLines]
+  | cons l ls ih =>
+    have ih' := ih (fun ts hts => h ts (List.mem_cons_of_mem _ hts))
+    obtain ⟨hl, hw⟩ := h l (by simp)
+    have hne : l ≠ [] := by intro e; rw [e] at hl; simp at hl; omega
+    have := joinSp_length_fixed tw l hw hne
+    simp only [renderLines, List.flatMap_cons, List.length_append, List.length_cons, List.length_nil] at ih' ⊢
+    rw [ih', this, hl, Nat.add_mul]
+    omega
+
+/-- fixed-width text (every point token `tw` bytes, `fpp > 0` tokens per line): the byte length of the cut text is
+    `ptsCutPos` with `clen` = count token + LF — the position the harness cuts at and the oracle re-derives -/
+theorem ptsCutText_length (ctok : Tok) (pls : List (List Tok)) (tw fpp : Nat) (hf : 0 < fpp)
+    (h : ∀ ts ∈ pls, ts.length = fpp ∧ ∀ x ∈ ts, x.length = tw)
+    (j t : Nat) (sp : Bool) (hj : j ≤ pls.length) (ht : t ≤ fpp) (hjt : j = pls.length → t = 0) :
+    (ptsCutText ctok pls j t sp).length = ptsCutPos (ctok.length + 1) tw fpp j t sp := by
+  have hr : (renderLines ([ctok] :: pls.take j)).length = (ctok.length + 1) + j * (fpp * (tw + 1)) := by
+    have := renderLines_length_fixed tw fpp hf (pls.take j) (fun ts hts => h ts (List.mem_of_mem_take hts))
+    simp only [renderLines, List.flatMap_cons, List.length_append, List.length_cons, List.length_nil, joinSp] at this ⊢
+    rw [this, List.length_take, Nat.min_eq_left hj]
+  have hs : (if sp then [(32 : UInt8)] else []).length = if sp then 1 else 0 := by cases sp <;> rfl
+  have hm : (joinSp ((pls.getD j []).take t)).length = if t = 0 then 0 else t * (tw + 1) - 1 := by
+    by_cases ht0 : t = 0
+    · simp [ht0, joinSp]
+    · rw [if_neg ht0]
+      have hjl : j < pls.length := by
+        rcases Nat.lt_or_ge j pls.length with h1 | h1
+        · exact h1
+        · exact absurd (hjt (by omega)) ht0
+      have hg : pls.getD j [] = pls[j] := by simp [List.getD, hjl]
+      obtain ⟨hl, hw⟩ := h pls[j] (List.getElem_mem hjl)
+      have hne : (pls[j]).take t ≠ [] := by
+        intro e
+        have := congrArg List.length e
+        simp only [List.length_take, List.length_nil] at this
+        omega
+      have := joinSp_length_fixed tw ((pls[j]).take t) (fun x hx => hw x (List.mem_of_mem_take hx)) hne
+      rw [hg]
+      simp only [List.length_take, hl, Nat.min_eq_left ht] at this
+      omega
+  unfold ptsCutText ptsCutPos
+  rw [List.length_append, List.length_append, hr, hs, hm]
+  omega
+
+/-- PTS, everything from the text: valid fixed-width text, any valid token-boundary cut — the oracle predicate evaluated on
+    the BYTE LENGTHS of the complete text and of the cut text and on the model's verdict is true -/
+theorem large_cut_pts_bytes (L : Lex) (fpp : Nat) (ctok : Tok) (pls : List (List Tok))
+    (hc : CleanTok ctok) (hclean : ∀ ts ∈ pls, ∀ t ∈ ts, CleanTok t)
+    (hx : PtsOk L fpp (mkLine [ctok]) (pls.map mkLine))
+    (tw : Nat) (hw : ∀ ts ∈ pls, ∀ x ∈ ts, x.length = tw)
+    (j t : Nat) (sp : Bool) (hv : ptsCutValid pls.length fpp j t sp = true) :
+    ptsCutOk pls.length fpp (ctok.length + 1) tw (renderLines ([ctok] :: pls)).length j t sp
+      (ptsCutText ctok pls j t sp).length (ptsV (readPts L (ptsCutText ctok pls j t sp))) = true := by
+  have hv' := hv
+  simp only [ptsCutValid, Bool.and_eq_true, decide_eq_true_eq] at hv'
+  obtain ⟨⟨h3, htf⟩, hcase⟩ := hv'
+  have hf : 0 < fpp := by omega
+  have h : ∀ ts ∈ pls, ts.length = fpp ∧ ∀ x ∈ ts, x.length = tw := by
+    intro ts hts
+    refine ⟨?_, hw ts hts⟩
+    have := (hx.2 (mkLine ts) (by simp; exact ⟨ts, hts, rfl⟩)).1
+    simpa [mkLine] using this
+  have hjn : j ≤ pls.length := by
+    by_cases hj : j < pls.length
+    · omega
+    · rw [if_neg hj] at hcase; simp at hcase; omega
+  have hjt : j = pls.length → t = 0 := by
+    intro e
+    rw [if_neg (by omega)] at hcase; simp at hcase; omega
+  have hlenF : (renderLines ([ctok] :: pls)).length = (ctok.length + 1) + pls.length * (fpp * (tw + 1)) := by
+    have := renderLines_length_fixed tw fpp hf pls h
+    simp only [renderLines, List.flatMap_cons, List.length_append, List.length_cons, List.length_nil, joinSp] at this ⊢
+    rw [this]
+  have hpos := ptsCutText_length ctok pls tw fpp hf h j t sp hjn htf hjt
+  have hle : ptsCutPos (ctok.length + 1) tw fpp j t sp ≤ (ctok.length + 1) + pls.length * (fpp * (tw + 1)) := by
+    unfold ptsCutPos
+    by_cases hj : j < pls.length
+    · rw [if_pos hj] at hcase
+      have h1 : (j + 1) * (fpp * (tw + 1)) ≤ pls.length * (fpp * (tw + 1)) := Nat.mul_le_mul_right _ (by omega)
+      rw [Nat.succ_mul] at h1
+      have h2 : t * (tw + 1) ≤ fpp * (tw + 1) := Nat.mul_le_mul_right _ htf
+      cases sp
+      · simp only [Bool.false_eq_true, if_false]
+        split <;> omega
+      · have h4 : 0 < t ∧ t < fpp := by simp at hcase; omega
+        have h5 : (t + 1) * (tw + 1) ≤ fpp * (tw + 1) := Nat.mul_le_mul_right _ (by omega)
+        rw [Nat.succ_mul] at h5
+        simp only [if_true]
+        split <;> omega
+    · have e : j = pls.length := by omega
+      have ht0 := hjt e
+      rw [if_neg hj] at hcase
+      have hsp : sp = false := by simp at hcase; exact hcase.2
+      subst hsp; subst ht0; subst e
+      simp
+  rw [large_cut_pts_verdict L fpp ctok pls hc hclean hx j t sp hv, hlenF, hpos]
+  simp [ptsCutOk, hv, hle]
+
+/-- face records of a triangle mesh with ONE list property (the writer's `vertex_indices`): count field + 3 entries each -/
+theorem encFaces_length_triangles (be : Bool) (f : FaceHdr) (p : ListProp) (hl : f.lists = [p])
+    (fs : List (List ListInst)) (hok : ∀ y ∈ fs, FaceOk f y) (htri : ∀ y ∈ fs, ∀ a ∈ y, a.1 = 3) :
+    (encFaces be f fs).length = fs.length * (p.countSize + 3 * p.elemSize) := by
+  unfold encFaces
+  induction fs with
+  | nil => simp
+  | cons y fs ih =>
+    have ih' := ih (fun z hz => hok z (List.mem_cons_of_mem _ hz)) (fun z hz => htri z (List.mem_cons_of_mem _ hz))
+    have hy := (hok y (by simp)).1
+    rw [hl] at hy ih' ⊢
+    have h1 : (encLists be [p] y).length = p.countSize + 3 * p.elemSize := by
+      match y, hy, htri y (by simp) with
+      | [a], hy, h3 =>
+        simp only [ListsOk] at hy
+        have ha := h3 a (by simp)
+        have hc := encCount_length be p a hy.1
+        rw [ha] at hc
+        simp only [encLists, encList, List.append_nil, List.length_append, hy.1.2, ha, hc]
+      | [], hy, _ => simp [ListsOk] at hy
+      | _ :: _ :: _, hy, _ => simp [ListsOk] at hy
+    simp only [List.flatMap_cons, List.length_append, List.length_cons, ih', h1, Nat.add_mul]
+    omega
+
+theorem faceBytes_triangles (be : Bool) (h : Hdr) (x : BinFile) (hx : x.ok h) (f : FaceHdr) (p : ListProp)
+    (hface : h.face = some f) (hl : f.lists = [p]) (htri : ∀ y ∈ x.fs, ∀ a ∈ y, a.1 = 3) :
+    x.faceBytes be h = x.fs.length * (p.countSize + 3 * p.elemSize) := by
+  obtain ⟨_, _, _, hf⟩ := hx
+  rw [hface] at hf
+  unfold BinFile.faceBytes
+  rw [hface]
+  exact encFaces_length_triangles be f p hl x.fs hf.2 htri
+
+theorem faceBytes_cloud (be : Bool) (h : Hdr) (x : BinFile) (hface : h.face = none) : x.faceBytes be h = 0 := by
+  unfold BinFile.faceBytes; rw [hface]; rfl
+
+
 /-! ## non-vacuity, and the two seeded large-file defects as instances of the compiled predicates -/
 
 /-- a valid two-point PTS text ("2", then two lines "1 2 3") in the shape the PTS theorems quantify over; the cut after
